@@ -159,6 +159,13 @@ def lib_table(F):
     F.check("C08", "sympylib/nan_to_num-is-identity", L.nan_to_num(a, nan=0.0, posinf=1.0) is a)
     F.check("C08", "sympylib/maximum-returns-symbolic-argument", L.maximum(a, 0) is a and L.maximum(0, a) is a and L.maximum(a, b) is a)
     F.check("C08", "sympylib/minimum-returns-symbolic-argument", L.minimum(a, 1) is a and L.minimum(1, a) is a and L.minimum(a, b) is a)
+    # ... also when the operand has collapsed to a number (numeric SymPy coordinates, or operands related by construction): inside the bound the clamp is
+    # inactive in the numeric backends, so the replacement must hand the number back, whichever argument position it is in
+    for val in (sympy.Float(0.5), sympy.Float(-0.5), sympy.Rational(1, 3), sympy.Rational(-2, 3), sympy.Integer(0), sympy.Float(0.999999), sympy.Float(-0.999999), sympy.sqrt(2) / 2):
+        F.check("C08", f"sympylib/minimum(1, {val})-inactive-clamp-returns-the-number", L.minimum(1, val) == val and L.minimum(val, 1) == val, dict(got=(str(L.minimum(1, val)), str(L.minimum(val, 1)))))
+        F.check("C08", f"sympylib/maximum(-1, {val})-inactive-clamp-returns-the-number", L.maximum(-1, val) == val and L.maximum(val, -1) == val, dict(got=(str(L.maximum(-1, val)), str(L.maximum(val, -1)))))
+        if val >= 0:
+            F.check("C08", f"sympylib/maximum({val}, 0)-inactive-clamp-returns-the-number", L.maximum(val, 0) == val and L.maximum(0, val) == val, dict(got=str(L.maximum(val, 0))))
     F.check("C08", "sympylib/copysign-returns-first-argument", L.copysign(a, b) is a)
     F.check("C08", "sympylib/isclose-is-Eq", L.isclose(a, b, 1e-5, 1e-8, False) == sympy.Eq(a, b))
     F.check("C08", "sympylib/sign-is-numeric", L.sign(-2.0) == -1 and L.sign(3) == 1)
